@@ -237,6 +237,9 @@ func TestC08(t *testing.T) {
 		{"leaver", &swimCheck{name: "C08", wc: worldCfg{Peers: 2}, alphabet: c08LeaverAlphabet, oracle: c08LeaverOracle}},
 		{"leaver-nopeers", &swimCheck{name: "C08", wc: worldCfg{Peers: 0}, alphabet: c08LeaverAlphabet, oracle: c08LeaverOracle}},
 	}
+	if replayT(t, rep, c08TScenarios()) {
+		return
+	}
 	var rp swimReplay
 	replay := loadReplay(&rp)
 	for i, c := range checks {
@@ -262,6 +265,14 @@ func TestC08(t *testing.T) {
 			continue
 		}
 		c.sc.bfs(t, rep, c.name)
+	}
+	if !replay {
+		tb := 2
+		if thorough() {
+			tb = 3
+		}
+		rep.Bounds["T_preemption_bound"] = tb
+		runTSet(t, rep, c08TScenarios(), tb, 5000)
 	}
 	rep.Distinct = rep.States
 	rep.Evaluations = rep.Transitions
